@@ -121,6 +121,9 @@ func init() {
 						res = fmt.Sprintf("panic: %v", x)
 					}
 				}()
+				if li, err := w.LastIndex(); err == nil && li == 0 {
+					res = "ok/empty-log"
+				}
 				for idx := atoiU(args[1]); idx <= atoiU(args[2]); idx++ {
 					var l raft.Log
 					if err := w.GetLog(idx, &l); err != nil {
@@ -292,6 +295,25 @@ func suiteOpenDamage(seed uint64, tier string) *Report {
 		cases = append(cases, dmg{class: "meta-db-truncated-pages", desc: fmt.Sprintf("wal-meta.db truncated to %d of %d bytes", n, len(t.files["wal-meta.db"])), child: true,
 			apply: func(dir string) { wr(dir, "wal-meta.db", t.files["wal-meta.db"][:n]) }})
 	}
+	// every page of the meta DB in turn: zeroed, and with one bit flipped in its page-id field (bolt's own consistency
+	// assertions fire on these; Open must turn that into an error, not into an empty log or a panic)
+	for pg := 0; pg*4096 < len(t.files["wal-meta.db"]); pg++ {
+		pg := pg
+		cases = append(cases, dmg{class: "meta-db-page-zeroed", desc: fmt.Sprintf("wal-meta.db page %d zeroed", pg), child: true, mustFail: pg >= 2 && false,
+			apply: func(dir string) {
+				b := append([]byte(nil), t.files["wal-meta.db"]...)
+				for j := pg * 4096; j < (pg+1)*4096 && j < len(b); j++ {
+					b[j] = 0
+				}
+				wr(dir, "wal-meta.db", b)
+			}})
+		cases = append(cases, dmg{class: "meta-db-page-id-flipped", desc: fmt.Sprintf("wal-meta.db page %d: one bit of its page id flipped", pg), child: true,
+			apply: func(dir string) {
+				b := append([]byte(nil), t.files["wal-meta.db"]...)
+				b[pg*4096] ^= 0x40
+				wr(dir, "wal-meta.db", b)
+			}})
+	}
 	// the stored metadata RECORD damaged inside an otherwise valid BoltDB file (bolt does not checksum data pages):
 	// every occurrence of the JSON record is altered the same way
 	rec := []byte(`{"NextSegmentID"`)
@@ -351,6 +373,8 @@ func suiteOpenDamage(seed uint64, tier string) *Report {
 				outcome = "child-died"
 			} else if strings.HasPrefix(out, "panic") {
 				add("Open panicked on a damaged directory", out, steps...)
+			} else if strings.HasPrefix(out, "ok/empty-log") {
+				add("a damaged meta DB is opened as an empty log: every entry silently missing instead of an error", out, steps...)
 			} else if out == "blocked" {
 				add("Open did not return on a damaged directory", out, steps...)
 			}
